@@ -12,7 +12,5 @@ def main : IO Unit :=
               ("from_groove_wg", Gen.C08.from_groove_wg), ("from_groove_fg", Gen.C08.from_groove_fg),
               ("from_groove_wh", Gen.C08.from_groove_wh), ("from_groove_fh", Gen.C08.from_groove_fh)],
     table := Gen.C08.table,
-    caches := [("two", { memo := Gen.C08.two_memo, chain := Gen.C08.two_reevaluate.map Prod.snd, loop := Gen.C08.solve_loop,
-                         init := Gen.C08.init_solve_ops }),
-               ("three", { memo := Gen.C08.three_memo, chain := Gen.C08.three_reevaluate.map Prod.snd, loop := Gen.C08.solve_loop,
-                           init := Gen.C08.init_solve_ops })] }
+    caches := [("two", { pass := Gen.C08.two_pass, loop := Gen.C08.solve_loop, init := Gen.C08.init_solve_ops }),
+               ("three", { pass := Gen.C08.three_pass, loop := Gen.C08.solve_loop, init := Gen.C08.init_solve_ops })] }
